@@ -44,11 +44,13 @@ static CO_ERR UtRangeWrite(CO_OBJ *o, CO_NODE *n, void *b, uint32_t s)
     if (*(uint32_t *)b > 100u) return CO_ERR_OBJ_RANGE;
     *(uint32_t *)o->Data = *(uint32_t *)b; return CO_ERR_NONE;
 }
-#define SDO_USER_ABORT 0x06060000u
+#define SDO_USER_ABORT 0x08000022u      /* a code none of the stack's own paths produces */
 static CO_ERR UtUserWrite(CO_OBJ *o, CO_NODE *n, void *b, uint32_t s)
 {
     if (s != 4) return CO_ERR_BAD_ARG;
-    if (*(uint32_t *)b > 100u) { COObjTypeUserSDOAbort(o, n, SDO_USER_ABORT); return CO_ERR_TYPE_WR; }
+    /* the type supplies its own abort code; its return value is one the stack maps itself (200) or an unspecific one (everything else):
+     * the application-supplied code has to win in both cases */
+    if (*(uint32_t *)b > 100u) { COObjTypeUserSDOAbort(o, n, SDO_USER_ABORT); return *(uint32_t *)b == 200u ? CO_ERR_OBJ_RANGE : CO_ERR_TYPE_WR; }
     *(uint32_t *)o->Data = *(uint32_t *)b; return CO_ERR_NONE;
 }
 static const CO_OBJ_TYPE UtRange = { UtSize, 0, UtRead, UtRangeWrite, 0 };
@@ -465,7 +467,10 @@ static void sdo_model_step(int srvno, const uint8_t *req, const WFrame *resp, in
                 if (!c && OBJ[m->obj].kind != K_DOMAIN && m->got >= S) ok = 1;     /* continuing past a complete basic value */
                 if (!c && len < 7) ok = 1;                                          /* short segment that is not the last: implementation-defined */
                 if (!c && OBJ[m->obj].kind != K_DOMAIN) ok = 1;                     /* basic types in several segments: implementation-defined */
-                if (c) { uint32_t vc = OBJ[m->obj].kind != K_DOMAIN && m->got == S ? verdict_value(m->obj, m->data, S) : 0; if (vc) ok = 1; }
+                if (c) { uint32_t vc = OBJ[m->obj].kind != K_DOMAIN && m->got == S ? verdict_value(m->obj, m->data, S) : 0; if (vc) ok = 1;
+                    /* the complete value is rejected by the object's type and nothing else is wrong: the type's code, whatever the transfer kind */
+                    if (vc && !(m->announced && m->got != m->ann_size) && w_get32(r + 4) != vc)
+                        SDO_FAIL("sdo-wrong-abort-code", "segmented download of a value the type rejects refused with %08X, the type's code is %08X", w_get32(r + 4), vc); }
                 if (!ok) SDO_FAIL("sdo-wrong-verdict", "conforming download segment (t=%d n=%d c=%d, %u bytes so far) refused with %08X", t, n, c, m->got, w_get32(r + 4));
                 sdo_adopt(m->obj); sdo_dirty_obj[srvno] = -1; sm_reset(m); break;
             }
@@ -541,6 +546,10 @@ static void sdo_model_step(int srvno, const uint8_t *req, const WFrame *resp, in
                 int ok = (total > S) || (m->announced && total != m->ann_size) || (OBJ[m->obj].kind != K_DOMAIN && total != S) || m->got < n ||
                          (OBJ[m->obj].kind != K_DOMAIN && total == S && verdict_value(m->obj, m->data, S));
                 if (!ok) SDO_FAIL("sdo-wrong-verdict", "conforming end of block download (%u bytes) refused with %08X", total, w_get32(r + 4));
+                if (OBJ[m->obj].kind != K_DOMAIN && total == S && m->got >= n && !(m->announced && total != m->ann_size)) {
+                    uint32_t vc = verdict_value(m->obj, m->data, S);
+                    if (vc && w_get32(r + 4) != vc) SDO_FAIL("sdo-wrong-abort-code", "block download of a value the type rejects refused with %08X, the type's code is %08X", w_get32(r + 4), vc);
+                }
                 sdo_adopt(m->obj); sdo_dirty_obj[srvno] = -1; sm_reset(m); break;
             }
             if (r[0] != 0xA1) SDO_FAIL("sdo-wrong-verdict", "end block download answered with %02X instead of A1h", r[0]);
